@@ -25,7 +25,7 @@ func abbreviate(s string) string {
 // run: the line through the real lexer entry point under recover(); the Coq case is C02's
 // lexcase (line, strconv oracle table, observation) wrapped in KLex.
 func (lr *lexRunner) run(in input) hlib.Case {
-	line := lexgen.FromInts(in.Data)
+	line := in.Data.str()
 	var o lexgen.Observation
 	done := make(chan struct{})
 	go func() { o = lexgen.Lex(lr.ll, line, in.NS); close(done) }()
